@@ -1,6 +1,7 @@
 package model
 
 import (
+	"encoding/base64"
 	"fmt"
 	"math/rand"
 	"net/url"
@@ -12,9 +13,51 @@ type Gen struct{ R *rand.Rand }
 
 func NewGen(seed int64) *Gen { return &Gen{R: rand.New(rand.NewSource(seed))} }
 
+// Bytes returns n octets: mostly random, one time in eight a special pattern - all
+// zero, all 0xff, one repeated octet, a byte string whose base64 form consists of hex
+// digits only (seeded fault C12-v: a JSON decoder that also "accepts hex"), printable
+// ASCII, or text that looks like base64 / hex itself.
 func (g *Gen) Bytes(n int) []byte {
 	b := make([]byte, n)
 	g.R.Read(b)
+	if n == 0 || g.R.Intn(8) != 0 {
+		return b
+	}
+	switch g.R.Intn(6) {
+	case 0:
+		for i := range b {
+			b[i] = 0
+		}
+	case 1:
+		for i := range b {
+			b[i] = 0xff
+		}
+	case 2:
+		x := b[0]
+		for i := range b {
+			b[i] = x
+		}
+	case 3:
+		// base64 alphabet restricted to hex digits; for n not a multiple of three the
+		// tail keeps its random octets
+		const hexd = "0123456789abcdefABCDEF"
+		q := make([]byte, 4*(n/3))
+		for i := range q {
+			q[i] = hexd[g.R.Intn(len(hexd))]
+		}
+		if d, err := base64.StdEncoding.DecodeString(string(q)); err == nil {
+			copy(b, d)
+		}
+	case 4:
+		for i := range b {
+			b[i] = byte(0x20 + g.R.Intn(0x5f))
+		}
+	default:
+		const txt = "deadbeefDEADBEEF0123456789+/=="
+		for i := range b {
+			b[i] = txt[(i+int(b[0]))%len(txt)]
+		}
+	}
 	return b
 }
 func (g *Gen) bp(n int) *[]byte { b := g.Bytes(n); return &b }
